@@ -40,13 +40,15 @@ def handle : List String → Option String
       | .panic _ => "panic"
       | .ok (h, e) => s!"ok end={e} h={listStr (sortStrs (h.map fun x => hexOfBytes x.1 ++ "=" ++ hexOfBytes x.2))}")
   -- request <stream> [sched pattern] <default host|none> <max head> <body limit>
-  | ["request", s, sc, dh, mx, lim] => do
+  | [kind, s, sc, dh, mx, lim] => do
+    -- `request`: the peer closes after the stream; `request-open`: it keeps the connection open
+    let eof ← (if kind = "request" then some true else if kind = "request-open" then some false else none)
     let stream ← bytesOfHex s
     let sched := cyc (← parseNatList sc) (stream.length + 2)
     let max ← mx.toNat?
     let limit ← lim.toNat?
     let dflt ← parseOptBytes dh
-    pure (match readHeaders stream sched [] max with
+    pure (match readHeaders stream sched [] max eof with
       | .error e => "err:" ++ errStr e
       | .ok buf =>
         match requestHead buf dflt with
